@@ -11,14 +11,15 @@ func geometryCollectionReader(r io.Reader, byteOrder binary.ByteOrder) (geom.Geo
 	if err := binary.Read(r, byteOrder, &numGeometries); err != nil {
 		return nil, err
 	}
-	geoms := make([]geom.Geom, numGeometries)
+	// The count is not trusted (see readPoints): the slice grows as members are read.
+	geoms := []geom.Geom{}
 	for i := uint32(0); i < numGeometries; i++ {
 		if g, err := Read(r); err == nil {
-			var ok bool
-			geoms[i], ok = g.(geom.Geom)
+			member, ok := g.(geom.Geom)
 			if !ok {
 				return nil, &UnexpectedGeometryError{g}
 			}
+			geoms = append(geoms, member)
 		} else {
 			return nil, err
 		}
